@@ -151,6 +151,35 @@ def gen_programs(rnd, quick):
                   "(let* ((t (spawn-native-thread (lambda () (time/sleep-ms 400) 7))) (j (spawn-native-thread (lambda () (thread-join! t)))))"
                   " (time/sleep-ms 60) (let ((t0 (current-milliseconds))) (let ((f (thread-finished? t))) (let ((dt (- (current-milliseconds) t0)))"
                   " (list f (< dt 200) (thread-join! j) (thread-finished? t))))))", set()))
+    # (10) blocking built-ins in tail and non-tail position of procedures, closures and module-level procedures, while the thread that
+    # is waited for needs stop-the-world rounds (assigns a global / collects): the waiter has to be published while it blocks.
+    # `tailblock`: with the JIT a tail call of a built-in is not wrapped in a safepoint (open finding K16b); the interpreter wraps it.
+    pre = ("(define g 0) (define (bump n) (if (= n 0) 7 (begin (set! g (+ g 1)) (bump (- n 1)))))"
+           " (define (fill v n live) (if (= n 0) 7 (begin (vector-set! v (modulo n live) (box n)) (fill v (- n 1) live))))"
+           " (define ch (channels/new)) (define tx (channels-sender ch)) (define rx (channels-receiver ch)) (define m (mutex))")
+    req = '(require "%s/waiters.scm") ' % MODS
+    for wk, w in (("assign", "(bump 300)"), ("alloc", "(fill (make-vector 9000 (box 0)) 40000 9000)")):
+        worker = "(spawn-native-thread (lambda () (time/sleep-ms 30) %s))" % w
+        sender = "(spawn-native-thread (lambda () (time/sleep-ms 30) %s (channel/send tx 5)))" % w
+        progs.append(("join-tail-%s" % wk, "7", pre + " (define (wait h) (thread-join! h)) (let* ((w %s) (t (spawn-native-thread (lambda () (wait w)))))"
+                      " (thread-join! t))" % worker, {"tailblock"}))
+        progs.append(("join-nontail-%s" % wk, "7", pre + " (define (wait h) (+ 0 (thread-join! h))) (let* ((w %s) (t (spawn-native-thread (lambda () (wait w)))))"
+                      " (thread-join! t))" % worker, set()))
+        progs.append(("recv-tail-lambda-%s" % wk, "5", pre + " (let* ((t (spawn-native-thread (lambda () (channel/recv rx)))) (w %s)) (thread-join! w)"
+                      " (thread-join! t))" % sender, {"tailblock"}))
+        progs.append(("recv-nontail-%s" % wk, "5", pre + " (let* ((t (spawn-native-thread (lambda () (let ((v (channel/recv rx))) (+ v 0))))) (w %s))"
+                      " (thread-join! w) (thread-join! t))" % sender, set()))
+        progs.append(("recv-tail-closure-%s" % wk, "5", pre + " (define (mk k) (lambda () (if (> k 0) (channel/recv rx) k))) (let* ((t (spawn-native-thread (mk 1)))"
+                      " (w %s)) (thread-join! w) (thread-join! t))" % sender, {"tailblock"}))
+        progs.append(("lock-tail-%s" % wk, "#true", pre + " (define (grab) (lock-acquire! m)) (let* ((guard (lock-acquire! m)) (t (spawn-native-thread"
+                      " (lambda () (let ((gd (grab))) (lock-release! gd) #t))))) (time/sleep-ms 30) %s (lock-release! guard) (thread-join! t))" % w,
+                      {"tailblock"}))
+        progs.append(("module-join-tail-%s" % wk, "7", req + pre + " (let* ((w %s) (t (spawn-native-thread (lambda () (mwait-tail w))))) (thread-join! t))"
+                      % worker, {"tailblock"}))
+        progs.append(("module-join-nontail-%s" % wk, "7", req + pre + " (let* ((w %s) (t (spawn-native-thread (lambda () (mwait-nontail w)))))"
+                      " (thread-join! t))" % worker, set()))
+        progs.append(("module-recv-tail-%s" % wk, "5", req + pre + " (let* ((t (spawn-native-thread (lambda () (mrecv-tail rx)))) (w %s)) (thread-join! w)"
+                      " (thread-join! t))" % sender, {"tailblock"}))
     return progs
 
 
@@ -162,6 +191,9 @@ def write_modules(text=None):
     with open(os.path.join(MODS, "arith.scm"), "w") as f:
         f.write("(provide count-up mix)\n(define (count-up n limit) (if (< n limit) (count-up (+ n 1) limit) n))\n"
                 "(define (mix n acc limit) (if (< n limit) (mix (+ n 1) (+ (* acc 3) 1) limit) acc))\n")
+    with open(os.path.join(MODS, "waiters.scm"), "w") as f:
+        f.write("(provide mwait-tail mwait-nontail mrecv-tail)\n(define (mwait-tail h) (thread-join! h))\n"
+                "(define (mwait-nontail h) (+ 0 (thread-join! h)))\n(define (mrecv-tail rx) (channel/recv rx))\n")
 
 
 # ---------------------------------------------------------------------------------------------- running
@@ -201,7 +233,7 @@ def model_corpus(ctx, stats):
 def run(ctx):
     rnd = random.Random(ctx.seed * 104729 + 16)
     write_modules()
-    stats = {"runs": 0, "pass": 0, "k16b": 0, "k16d": 0, "aborted_k15a": 0, "aborted_alloc": 0, "model_cases": 0, "hangs": [],
+    stats = {"runs": 0, "pass": 0, "k16b": 0, "k16b_tail": 0, "k16d": 0, "aborted_k15a": 0, "aborted_alloc": 0, "model_cases": 0, "hangs": [],
              "stops": 0, "gcs": 0, "dispatched": 0, "samples": [], "retried": 0}
     known = {k["id"]: k for k in ctx.load_known()}
     all_known = set(re.findall(r"^finding:.*?id=(\S+)", open(os.path.join(C.VERIF, "KNOWN_FINDINGS.txt")).read(), re.M))
@@ -276,6 +308,10 @@ def run(ctx):
             ctx.notes.append("%s jit=%s: aborted by the allocator accounting panic (C19 territory); no verdict on progress" % (n, jit))
             continue
         oc = kv.get("outcome", "?")
+        if oc == "hang-stuck" and jit == "true" and "tailblock" in t and "K16b" in known:
+            # class predicate of K16b: a blocking built-in in tail position of compiled code (jit tail-call helper without safepoint)
+            stats["k16b_tail"] += 1
+            continue
         if oc.startswith("hang"):
             stats["hangs"].append((n, jit, oc))
         ctx.violation("C16-%s-jit%s.txt" % (n, jit),
@@ -314,15 +350,15 @@ def run(ctx):
                                            "regex translator over vm.rs / vm/jit.rs / transducers.rs / lazy_stream.rs / engine.rs"],
         "evaluations": stats["runs"] + stats["model_cases"],
         "distinct_nontrivial": len([1 for j in jobs if True]) // (1 if ctx.quick() else 3),
-        "rule": "program = generated from 9 templates (per-thread global counters released by a start signal, allocation with a live set above the "
+        "rule": "program = generated from 10 templates (per-thread global counters released by a start signal, allocation with a live set above the "
                 "full-collection threshold, joins forward/reverse/nested, k senders -> 1 receiver, mutex-protected counter while main assigns and "
-                "allocates, blocking calls direct / via map / via for-each, the K16a / K16c / K16e regression programs) x thread count x JIT on/off; sizes from the PRNG "
+                "allocates, blocking calls direct / via map / via for-each, blocking built-ins (thread-join!, channel/recv, lock-acquire!) in tail and non-tail position of procedures / closures / module-level procedures while the awaited thread assigns or collects, the K16a / K16c / K16e regression programs) x thread count x JIT on/off; sizes from the PRNG "
                 "seeded by VERIF_SEED; every program is non-trivial (>= 1 spawned thread) and distinct by name",
         "samples": stats["samples"],
         "programs": len(progs), "jit_modes": 2, "passed": stats["pass"], "hangs": stats["hangs"],
         "stop_rounds_completed_in_programs": stats["stops"], "collections_in_programs": stats["gcs"],
         "runs_repeated_after_C15_K15a_abort": stats["aborted_k15a"], "runs_repeated_after_allocator_abort": stats["aborted_alloc"],
-        "k16b_witness_cases_stuck": stats["k16b"], "k16d_witness_cases_slow": stats["k16d"], "model_schedules": stats["model_cases"],
+        "k16b_witness_cases_stuck": stats["k16b"], "k16b_jit_tail_position_programs_stuck": stats["k16b_tail"], "k16d_witness_cases_slow": stats["k16d"], "model_schedules": stats["model_cases"],
         "translator": {"call_arms": len(arms), "publishing": len([a for a in arms if a.get("publishes")]),
                        "gate_sites": tr.get("gate_sites", [])},
         "axioms": pr.get("axioms", {}), "proof_failures": ["%s: %s" % f for f in pr["failed"]],
